@@ -281,6 +281,37 @@ def run(world, rep, tier, only=None):
         bad = failure_returns(xs, prog, last)
         rep.ob("C15.e", site(xs, "failed array update is returned"), not bad, "%s" % [(b_[0].line, b_[1]) for b_ in bad[:2]])
 
+    # ------------------------------------------------------------------ C15.h a command that could not do its work says so
+    # debugfs ea_set / ea_rm / ea_get end silently when all went well.  When a library call failed (the handle could
+    # not be opened, the attributes not read, the value not stored) silence would read as success: on the failing
+    # outcome of every test of the error variable, each path to the end of the command passes a message.
+    XC = "debugfs/xattrs.c"
+    n_t = 0
+    for name in ("do_set_xattr", "do_rm_xattr", "do_get_xattr"):
+        fn = prog.fn(name, XC)
+        printers = set(calls_to(fn, *PRINTERS)) | set(calls_to(fn, "perror"))
+        seq = {}
+        for bid in sorted(fn.blocks):
+            lit = fn.literal(bid)
+            if not lit or T.path(lit[0]) != "err":
+                continue
+            end_ = fn.block_end(bid)
+            srcs = [n for n in fn.events("S") if T.path(n.ev["lhs"]) == "err" and fn.dominated_by(end_, [n]) and
+                    isinstance(n.ev.get("rhs"), dict) and T.strip(n.ev["rhs"]).get("k") == "c"]
+            if not srcs:
+                continue
+            src = sorted(srcs, key=lambda n: (n.line, n.idx))[-1]
+            n_t += 1
+            fail = [m for (m, si) in fn.succ(end_) if ((si == 0) == lit[1])]
+            ex = absint.Explorer(fn, prog)
+            terms = ex.run(fail, env0={"err": "NZ"}, on_node=lambda node, env, fl, _p=printers: (fl | {"said"}) if node in _p else fl)
+            quiet = [ex.trace(st)[-6:] for (node, env, fl, st) in terms if node is fn.exit_node() and "said" not in fl]
+            seq[T.strip(src.ev["rhs"]).get("fn")] = seq.get(T.strip(src.ev["rhs"]).get("fn"), -1) + 1
+            rep.ob("C15.h", site(fn, "failure of %s is reported#%d" % (T.strip(src.ev["rhs"]).get("fn"), seq[T.strip(src.ev["rhs"]).get("fn")])),
+                   not quiet, "from the failing side of `if (err)` at line %d every path to the end of %s passes com_err(): %s" %
+                   (end_.line, name, quiet[:1]))
+    rep.floor("C15.h error tests in the xattr commands of debugfs", n_t, 8)
+
 
 def _reached_when(fn, call, pred):
     """with every literal satisfying pred taken on its true side, no entry is finished (the cursor
